@@ -1,5 +1,8 @@
 (* Wire for C15: one case = one generated sketch (buttons, potentiometers, ultrasonic sensors,
-   a per-pass statement list gated by a run-time value) with its scripted inputs, or one host
+   a loop body written in a small statement / expression language in which is_pressed(), read() and
+   measure_distance() occur in every position the transpiler accepts: printed, assigned, in
+   arithmetic, as call argument, in if / elif / nested-while / for-range conditions, under not / and /
+   or, in conditional expressions, as sleep() argument) with its scripted inputs, or one host
    Button history.  The sketch interpreter below only *composes* the device models of
    Device/DButton.v, DPot.v, DUltra.v in the order in which parser/emitter lay the statements out:
      setup():  one digitalRead per button declared before the main loop (declaration order)
@@ -25,12 +28,28 @@ Record bdesc := { bd_pin : Z; bd_place : place; bd_h : option nat; bd_samples : 
 Record pdesc := { pd_pin : Z; pd_values : list Z }.
 Record udesc := { ud_trig : Z; ud_echo : Z; ud_echoes : list Z }.
 
-Inductive op := OIsPressed (i : nat) | OPot (j : nat) | OMeasure (u : nat) | OSleep (ms : Z).
-
+(* ---- the loop body: expressions and statements are interpreted directly on their wire form
+   (tag :: arguments), by recursion on a depth bound [fuel] (loops have their own structural
+   counters).  C semantics of the emitted code: && and || short-circuit, the condition of a while
+   and the bound of a for are re-evaluated on every iteration.
+     int expressions   (0 n) literal            (1 i) b_i.is_pressed()    (2 j) p_j.read()
+                       (3) the gate variable    (4) innermost loop counter
+                       (5 op a b) a op b  op: 0 + 1 - 2 *               (6 a) a + a  (evaluated twice)
+                       (7 a) f(a) = a + 1       (8 c a b) a if c else b
+     conditions        (10 a) a (non-zero)      (11 c) not c              (12 c d) c and d   (13 c d) c or d
+                       (14 op a b) a op b  op: 0 < 1 <= 2 == 3 != 4 > 5 >=
+                       (15 f (num den)) f < num/den
+     float expressions (20 u) u.measure_distance()                        (21 f) f + f  (evaluated twice)
+     statements        (30 a) mon.write(a)      (32 ((c body) ...) else-body) if / elif / else
+                       (33 c K order body) n = 0; while (order 0: c and n < K | 1: n < K and c): body; n = n + 1
+                                           followed by mon.write(n)
+                       (34 a body) for i in range(a): body                (35 a) sleep(a)
+                       (36 f) mon.write(f)      (37 body) a block (the body of a helper function, called here) *)
 Record sketch := {
+  k_w : Z;
   k_drifts : list Z; k_passgaps : list Z;
   k_buttons : list bdesc; k_pots : list pdesc; k_ultras : list udesc;
-  k_gate : option pdesc; k_ops : list (Z * op) }.
+  k_gate : option pdesc; k_body : list wv }.
 
 Record sstate := {
   s_clk : clock;
@@ -46,6 +65,7 @@ Fixpoint set_nth {A} (n : nat) (x : A) (l : list A) : list A :=
   end.
 
 Definition ev (l : list Z) : wv := WL (map WI l).
+Definition bad_ev : wv := ev [99].
 
 (* the digitalRead index of pass k: the setup sample comes first for a declaration before the loop *)
 Definition sample_of (bd : bdesc) (k : nat) : bool :=
@@ -78,45 +98,295 @@ Definition enc_uev (ud : udesc) (e : uev) : list wv :=
   | UTrig t dur _ => [ev [6; ud_trig ud; t]; ev [7; ud_echo ud; dur]]
   end.
 
-Definition exec_op (sk : sketch) (st : sstate) (o : op) : sstate * list wv :=
-  let drift := nth_rep (k_drifts sk) 0 in
-  match o with
-  | OIsPressed i =>
-      match nth_error (s_btn st) i with
-      | Some b => (st, [ev [3; boolz (b_is_pressed b)]])
-      | None => (st, [ev [99]])
-      end
-  | OPot j =>
-      match nth_error (k_pots sk) j, nth_error (s_pidx st) j with
-      | Some pd, Some idx =>
-          let r := pot_read (pd_pin pd) (nth_rep (pd_values pd) 0) idx in
-          ({| s_clk := s_clk st; s_btn := s_btn st; s_pidx := set_nth j (p_next r) (s_pidx st); s_us := s_us st |},
-           map (fun e => match e with PAR p v => ev [4; p; v] end) (p_evs r) ++ [ev [3; p_val r]])
-      | _, _ => (st, [ev [99]])
-      end
-  | OMeasure u =>
-      match nth_error (k_ultras sk) u, nth_error (s_us st) u with
-      | Some ud, Some (us, np) =>
-          let r := u_measure drift (nth_rep (ud_echoes ud) 0) us (s_clk st) np in
-          ({| s_clk := r_clk r; s_btn := s_btn st; s_pidx := s_pidx st;
-              s_us := set_nth u (r_st r, r_np r) (s_us st) |},
-           flat_map (enc_uev ud) (r_evs r) ++ [WL [WI 8; wq (Qred (r_val r))]])
-      | _, _ => (st, [ev [99]])
-      end
-  | OSleep ms =>
-      ({| s_clk := do_delay drift (s_clk st) ms; s_btn := s_btn st; s_pidx := s_pidx st; s_us := s_us st |},
-       [ev [5; ms]])
+(* the three sensor primitives: the only places where the device models are used *)
+Definition do_pressed (st : sstate) (i : Z) : option Z :=
+  match nth_error (s_btn st) (Z.to_nat i) with
+  | Some b => Some (boolz (b_is_pressed b))
+  | None => None
   end.
 
-Fixpoint exec_ops (sk : sketch) (g : Z) (st : sstate) (ops : list (Z * op)) : sstate * list wv :=
-  match ops with
+Definition do_read (sk : sketch) (st : sstate) (j : Z) : option (sstate * list wv * Z) :=
+  match nth_error (k_pots sk) (Z.to_nat j), nth_error (s_pidx st) (Z.to_nat j) with
+  | Some pd, Some idx =>
+      let r := pot_read (pd_pin pd) (nth_rep (pd_values pd) 0) idx in
+      Some ({| s_clk := s_clk st; s_btn := s_btn st; s_pidx := set_nth (Z.to_nat j) (p_next r) (s_pidx st); s_us := s_us st |},
+            map (fun e => match e with PAR p v => ev [4; p; v] end) (p_evs r), p_val r)
+  | _, _ => None
+  end.
+
+Definition do_measure (sk : sketch) (st : sstate) (u : Z) : option (sstate * list wv * Q) :=
+  match nth_error (k_ultras sk) (Z.to_nat u), nth_error (s_us st) (Z.to_nat u) with
+  | Some ud, Some (us, np) =>
+      let r := u_measure (k_w sk) (nth_rep (k_drifts sk) 0) (nth_rep (ud_echoes ud) 0) us (s_clk st) np in
+      Some ({| s_clk := r_clk r; s_btn := s_btn st; s_pidx := s_pidx st;
+               s_us := set_nth (Z.to_nat u) (r_st r, r_np r) (s_us st) |},
+            flat_map (enc_uev ud) (r_evs r), r_val r)
+  | _, _ => None
+  end.
+
+Definition do_sleep (sk : sketch) (st : sstate) (ms : Z) : sstate * list wv :=
+  ({| s_clk := do_delay (nth_rep (k_drifts sk) 0) (s_clk st) ms; s_btn := s_btn st; s_pidx := s_pidx st; s_us := s_us st |},
+   [ev [5; ms]]).
+
+Definition arith (op a b : Z) : Z := if op =? 0 then a + b else if op =? 1 then a - b else a * b.
+Definition compare_op (op a b : Z) : bool :=
+  if op =? 0 then a <? b else if op =? 1 then a <=? b else if op =? 2 then a =? b
+  else if op =? 3 then negb (a =? b) else if op =? 4 then b <? a else b <=? a.
+Definition q_lt (a b : Q) : bool := negb (Qle_bool b a).
+
+Definition loop_cap : nat := 16.
+
+Fixpoint eval_f (fuel : nat) (sk : sketch) (g cnt : Z) (st : sstate) (v : wv) {struct fuel} : sstate * list wv * Q :=
+  let bad := (st, [bad_ev], 0%Q) in
+  match fuel with
+  | O => bad
+  | S f =>
+      match v with
+      | WL (WI tag :: args) =>
+          if tag =? 20 then
+            match args with
+            | [WI u] => match do_measure sk st u with Some r => r | None => bad end
+            | _ => bad
+            end
+          else if tag =? 21 then
+            match args with
+            | [a] =>
+                let '(s1, e1, x) := eval_f f sk g cnt st a in
+                let '(s2, e2, y) := eval_f f sk g cnt s1 a in
+                (s2, e1 ++ e2, (x + y)%Q)
+            | _ => bad
+            end
+          else bad
+      | _ => bad
+      end
+  end.
+
+Fixpoint eval_i (fuel : nat) (sk : sketch) (g cnt : Z) (st : sstate) (v : wv) {struct fuel} : sstate * list wv * Z :=
+  let bad := (st, [bad_ev], 0) in
+  match fuel with
+  | O => bad
+  | S f =>
+      match v with
+      | WL (WI tag :: args) =>
+          if tag =? 0 then match args with [WI n] => (st, [], n) | _ => bad end
+          else if tag =? 1 then
+            match args with
+            | [WI i] => match do_pressed st i with Some x => (st, [], x) | None => bad end
+            | _ => bad
+            end
+          else if tag =? 2 then
+            match args with
+            | [WI j] => match do_read sk st j with Some r => r | None => bad end
+            | _ => bad
+            end
+          else if tag =? 3 then (st, [], g)
+          else if tag =? 4 then (st, [], cnt)
+          else if tag =? 5 then
+            match args with
+            | [WI op; a; b] =>
+                let '(s1, e1, x) := eval_i f sk g cnt st a in
+                let '(s2, e2, y) := eval_i f sk g cnt s1 b in
+                (s2, e1 ++ e2, arith op x y)
+            | _ => bad
+            end
+          else if tag =? 6 then
+            match args with
+            | [a] =>
+                let '(s1, e1, x) := eval_i f sk g cnt st a in
+                let '(s2, e2, y) := eval_i f sk g cnt s1 a in
+                (s2, e1 ++ e2, x + y)
+            | _ => bad
+            end
+          else if tag =? 7 then
+            match args with
+            | [a] => let '(s1, e1, x) := eval_i f sk g cnt st a in (s1, e1, x + 1)
+            | _ => bad
+            end
+          else if tag =? 8 then
+            match args with
+            | [c; a; b] =>
+                let '(s1, e1, t) := eval_c f sk g cnt st c in
+                let '(s2, e2, x) := eval_i f sk g cnt s1 (if t then a else b) in
+                (s2, e1 ++ e2, x)
+            | _ => bad
+            end
+          else bad
+      | _ => bad
+      end
+  end
+with eval_c (fuel : nat) (sk : sketch) (g cnt : Z) (st : sstate) (v : wv) {struct fuel} : sstate * list wv * bool :=
+  let bad := (st, [bad_ev], false) in
+  match fuel with
+  | O => bad
+  | S f =>
+      match v with
+      | WL (WI tag :: args) =>
+          if tag =? 10 then
+            match args with
+            | [a] => let '(s1, e1, x) := eval_i f sk g cnt st a in (s1, e1, negb (x =? 0))
+            | _ => bad
+            end
+          else if tag =? 11 then
+            match args with
+            | [c] => let '(s1, e1, t) := eval_c f sk g cnt st c in (s1, e1, negb t)
+            | _ => bad
+            end
+          else if tag =? 12 then
+            match args with
+            | [c; d] =>
+                let '(s1, e1, t) := eval_c f sk g cnt st c in
+                if t then let '(s2, e2, t2) := eval_c f sk g cnt s1 d in (s2, e1 ++ e2, t2)
+                else (s1, e1, false)
+            | _ => bad
+            end
+          else if tag =? 13 then
+            match args with
+            | [c; d] =>
+                let '(s1, e1, t) := eval_c f sk g cnt st c in
+                if t then (s1, e1, true)
+                else let '(s2, e2, t2) := eval_c f sk g cnt s1 d in (s2, e1 ++ e2, t2)
+            | _ => bad
+            end
+          else if tag =? 14 then
+            match args with
+            | [WI op; a; b] =>
+                let '(s1, e1, x) := eval_i f sk g cnt st a in
+                let '(s2, e2, y) := eval_i f sk g cnt s1 b in
+                (s2, e1 ++ e2, compare_op op x y)
+            | _ => bad
+            end
+          else if tag =? 15 then
+            match args with
+            | [a; thr] =>
+                match un_q thr with
+                | Some q => let '(s1, e1, x) := eval_f f sk g cnt st a in (s1, e1, q_lt x q)
+                | None => bad
+                end
+            | _ => bad
+            end
+          else bad
+      | _ => bad
+      end
+  end.
+
+(* control-flow combinators, parametrised by the evaluators of the next lower depth *)
+Definition exec_fn := Z -> sstate -> wv -> sstate * list wv.            (* counter, state, statement *)
+Definition cond_fn := Z -> sstate -> wv -> sstate * list wv * bool.
+Definition int_fn := Z -> sstate -> wv -> sstate * list wv * Z.
+
+Fixpoint run_list (ex : exec_fn) (cnt : Z) (st : sstate) (l : list wv) : sstate * list wv :=
+  match l with
   | [] => (st, [])
-  | (thr, o) :: r =>
-      if thr <? g then
-        let r1 := exec_op sk st o in
-        let r2 := exec_ops sk g (fst r1) r in
-        (fst r2, snd r1 ++ snd r2)
-      else exec_ops sk g st r
+  | s :: r =>
+      let '(s1, e1) := ex cnt st s in
+      let '(s2, e2) := run_list ex cnt s1 r in
+      (s2, e1 ++ e2)
+  end.
+
+Fixpoint run_chain (ex : exec_fn) (ec : cond_fn) (cnt : Z) (els : list wv) (st : sstate) (l : list wv) : sstate * list wv :=
+  match l with
+  | [] => run_list ex cnt st els
+  | WL [c; WL body] :: r =>
+      let '(s1, e1, t) := ec cnt st c in
+      let '(s2, e2) := if t then run_list ex cnt s1 body else run_chain ex ec cnt els s1 r in
+      (s2, e1 ++ e2)
+  | _ :: _ => (st, [bad_ev])
+  end.
+
+Fixpoint run_while (ex : exec_fn) (ec : cond_fn) (c : wv) (K order : Z) (body : list wv)
+                   (k : nat) (n : Z) (st : sstate) : sstate * list wv * Z :=
+  match k with
+  | O => (st, [bad_ev], n)
+  | S k' =>
+      let '(s1, e1, go) :=
+        if order =? 0 then
+          let '(s1, e1, t) := ec n st c in (s1, e1, t && (n <? K))
+        else if n <? K then ec n st c
+        else (st, [], false) in
+      if go then
+        let '(s2, e2) := run_list ex n s1 body in
+        let '(s3, e3, n3) := run_while ex ec c K order body k' (n + 1) s2 in
+        (s3, e1 ++ e2 ++ e3, n3)
+      else (s1, e1, n)
+  end.
+
+Fixpoint run_for (ex : exec_fn) (ei : int_fn) (a : wv) (body : list wv) (cnt : Z)
+                 (k : nat) (i : Z) (st : sstate) : sstate * list wv :=
+  match k with
+  | O => (st, [bad_ev])
+  | S k' =>
+      let '(s1, e1, x) := ei cnt st a in
+      if i <? x then
+        let '(s2, e2) := run_list ex i s1 body in
+        let '(s3, e3) := run_for ex ei a body cnt k' (i + 1) s2 in
+        (s3, e1 ++ e2 ++ e3)
+      else (s1, e1)
+  end.
+
+Fixpoint exec (fuel : nat) (sk : sketch) (g cnt : Z) (st : sstate) (v : wv) {struct fuel} : sstate * list wv :=
+  let bad := (st, [bad_ev]) in
+  match fuel with
+  | O => bad
+  | S f =>
+      let ex : exec_fn := fun cnt' st' s => exec f sk g cnt' st' s in
+      let ec : cond_fn := fun cnt' st' c => eval_c f sk g cnt' st' c in
+      let ei : int_fn := fun cnt' st' a => eval_i f sk g cnt' st' a in
+      match v with
+      | WL (WI tag :: args) =>
+          if tag =? 30 then
+            match args with
+            | [a] => let '(s1, e1, x) := eval_i f sk g cnt st a in (s1, e1 ++ [ev [3; x]])
+            | _ => bad
+            end
+          else if tag =? 32 then
+            match args with
+            | [WL brs; WL els] => run_chain ex ec cnt els st brs
+            | _ => bad
+            end
+          else if tag =? 33 then
+            match args with
+            | [c; WI K; WI order; WL body] =>
+                let '(s9, e9, n9) := run_while ex ec c K order body (S (Z.to_nat K)) 0 st in
+                (s9, e9 ++ [ev [3; n9]])
+            | _ => bad
+            end
+          else if tag =? 34 then
+            match args with
+            | [a; WL body] => run_for ex ei a body cnt loop_cap 0 st
+            | _ => bad
+            end
+          else if tag =? 35 then
+            match args with
+            | [a] =>
+                let '(s1, e1, x) := eval_i f sk g cnt st a in
+                let '(s2, e2) := do_sleep sk s1 x in
+                (s2, e1 ++ e2)
+            | _ => bad
+            end
+          else if tag =? 36 then
+            match args with
+            | [a] => let '(s1, e1, x) := eval_f f sk g cnt st a in (s1, e1 ++ [WL [WI 8; wq (Qred x)]])
+            | _ => bad
+            end
+          else if tag =? 37 then
+            match args with
+            | [WL body] => run_list ex cnt st body
+            | _ => bad
+            end
+          else bad
+      | _ => bad
+      end
+  end.
+
+Definition body_fuel : nat := 64.
+
+Fixpoint exec_body (sk : sketch) (g : Z) (st : sstate) (l : list wv) : sstate * list wv :=
+  match l with
+  | [] => (st, [])
+  | s :: r =>
+      let '(s1, e1) := exec body_fuel sk g 0 st s in
+      let '(s2, e2) := exec_body sk g s1 r in
+      (s2, e1 ++ e2)
   end.
 
 Definition run_pass (sk : sketch) (k : nat) (st : sstate) : sstate * list wv :=
@@ -130,7 +400,7 @@ Definition run_pass (sk : sketch) (k : nat) (st : sstate) : sstate * list wv :=
                    | Some gd => let v := nth_rep (pd_values gd) 0 k in (v, [ev [4; pd_pin gd; v]])
                    | None => (0, [])
                    end in
-  let r := exec_ops sk g st1 (k_ops sk) in
+  let r := exec_body sk g st1 (k_body sk) in
   (fst r, snd polled ++ gev ++ snd r).
 
 Fixpoint run_passes (sk : sketch) (n k : nat) (st : sstate) : list wv :=
@@ -139,6 +409,7 @@ Fixpoint run_passes (sk : sketch) (n k : nat) (st : sstate) : list wv :=
   | S m => let r := run_pass sk k st in WL (snd r) :: run_passes sk m (S k) (fst r)
   end.
 
+(* clock0 = the true start time in ms (any non-negative integer, e.g. 2^W - 30) *)
 Definition run_sketch (sk : sketch) (n : nat) (clock0 : Z) : wv :=
   let setups := map setup_one (k_buttons sk) in
   let st0 := {| s_clk := {| now_us := clock0 * 1000; ndelay := 0 |};
@@ -185,15 +456,6 @@ Definition un_udesc (v : wv) : option udesc :=
   | _ => None
   end.
 
-Definition un_op (v : wv) : option (Z * op) :=
-  match v with
-  | WL [WI thr; WI 0; WI a] => Some (thr, OIsPressed (Z.to_nat a))
-  | WL [WI thr; WI 1; WI a] => Some (thr, OPot (Z.to_nat a))
-  | WL [WI thr; WI 2; WI a] => Some (thr, OMeasure (Z.to_nat a))
-  | WL [WI thr; WI 3; WI a] => Some (thr, OSleep a)
-  | _ => None
-  end.
-
 Definition un_gate (v : wv) : option (option pdesc) :=
   match v with
   | WL [] => Some None
@@ -201,18 +463,18 @@ Definition un_gate (v : wv) : option (option pdesc) :=
   | _ => None
   end.
 
-(* case 0: (0 N clock0 drifts passgaps buttons pots ultras gate ops)  -> (0 setup-events (pass-events ...))
+(* case 0: (0 N W clock0 drifts passgaps buttons pots ultras gate body)  -> (0 setup-events (pass-events ...))
    case 1: (1 cb samples) -> (0 ((clicked result) ...))   host Button polled once per sample *)
 Definition run (v : wv) : wv :=
   match v with
-  | WL [WI 0; n; WI clock0; dr; pg; bs; ps; us; g; ops] =>
+  | WL [WI 0; n; WI w; WI clock0; dr; pg; bs; ps; us; g; WL body] =>
       match un_nat n, un_text dr, un_text pg, un_list un_bdesc bs, un_list un_pdesc ps with
       | Some n', Some dr', Some pg', Some bs', Some ps' =>
-          match un_list un_udesc us, un_gate g, un_list un_op ops with
-          | Some us', Some g', Some ops' =>
-              run_sketch {| k_drifts := dr'; k_passgaps := pg'; k_buttons := bs'; k_pots := ps';
-                            k_ultras := us'; k_gate := g'; k_ops := ops' |} n' clock0
-          | _, _, _ => wbad
+          match un_list un_udesc us, un_gate g with
+          | Some us', Some g' =>
+              run_sketch {| k_w := w; k_drifts := dr'; k_passgaps := pg'; k_buttons := bs'; k_pots := ps';
+                            k_ultras := us'; k_gate := g'; k_body := body |} n' clock0
+          | _, _ => wbad
           end
       | _, _, _, _, _ => wbad
       end
